@@ -15,6 +15,7 @@ WRAPPERS = {"ParenExpr", "ImplicitCastExpr", "ExprWithCleanups", "MaterializeTem
             "CXXFunctionalCastExpr", "CXXStaticCastExpr", "CStyleCastExpr", "ConstantExpr", "CXXConstCastExpr",
             "SubstNonTypeTemplateParmExpr"}
 COMPOUND_OPS = {"+=", "-=", "*=", "/=", "%=", "&=", "|=", "^=", "<<=", ">>="}
+import re
 
 
 def ir_sx(n):
@@ -302,10 +303,14 @@ class Evaluator:
                 return m
             if m[0] == "term" and not args:
                 return m                                   # accessor on a temporary opt
+            if m[0] == "bound" and env.get("__targs__"):
+                r_ = self.policy_call(callee, args, env)
+                if r_ is not None:
+                    return r_[0]
             if m[0] == "bound":
                 obj, name = m[1], m[2]
                 if isinstance(obj, Obj):
-                    return self.inline_method(obj, name, [self.ev(a, env) for a in args])
+                    return self.inline_method(obj, name, [self.ev(a, env) for a in args], self.d.text(n))
                 raise Unknown("method %s on a temporary" % name)
             vals = [self.as_term(self.rv(a, env)) for a in args]
             return ("term", self.log_op("call", [self.as_term(m)] + vals))
@@ -318,6 +323,10 @@ class Evaluator:
             if cv is not None and cv[0] == "lambda":
                 return self.apply_lambda(cv, [self.ev(a, env) for a in args])
         name = callee.get("name") or (callee.get("referencedDecl") or {}).get("name")
+        if ck == "DependentScopeDeclRefExpr" and env.get("__targs__"):
+            r_ = self.policy_call(callee, args, env)
+            if r_ is not None:
+                return r_[0]
         if name is None:
             raise Unknown("call through %s" % ck)
         # pack expansions among the arguments (all_present(others...)) are spliced
@@ -393,7 +402,39 @@ class Evaluator:
             return ("opt", pres, ("op", name, terms))
         return ("term", self.log_op(name, [self.as_term(v) for v in vals]))
 
-    def inline_method(self, obj, name, args):
+    def policy_call(self, callee, args, env):
+        """`UPD::apply(a, b)` where UPD is a template parameter bound by the caller's explicit template arguments: the static member of that
+        policy type is evaluated on the arguments themselves (reference parameters are the arguments).  -> (value,) or None"""
+        q = re.match(r"\s*(?:this\s*->\s*)?(?:typename\s+)?([A-Za-z_]\w*)\s*::\s*(?:template\s+)?([A-Za-z_]\w*)", self.d.text(callee))
+        if not q or q.group(1) not in env["__targs__"]:
+            return None
+        cls_name, fn_name = env["__targs__"][q.group(1)], q.group(2)
+        for rec in self.d.walk():
+            if rec.get("kind") != "CXXRecordDecl" or rec.get("name") != cls_name or not self.kids(rec):
+                continue
+            for mem in self.kids(rec):
+                f_ = mem
+                if mem.get("kind") == "FunctionTemplateDecl":
+                    f_ = next((c for c in self.kids(mem) if c.get("kind") == "CXXMethodDecl"), None)
+                if f_ is None or f_.get("kind") != "CXXMethodDecl" or f_.get("name") != fn_name:
+                    continue
+                ps_ = [c for c in self.kids(f_) if c.get("kind") == "ParmVarDecl"]
+                if len(ps_) != len(args) or not any(c.get("kind") == "CompoundStmt" for c in self.kids(f_)) or self.depth > 4:
+                    continue
+                env2 = {"__targs__": env.get("__targs__")}
+                if "this" in env:
+                    env2["this"] = env["this"]
+                for p_, a_ in zip(ps_, args):
+                    byref = "&" in (p_.get("type") or {}).get("qualType", "")
+                    env2[p_["id"]] = self.ev(a_, env) if byref else self.rv(a_, env)
+                self.depth += 1
+                try:
+                    return (self.run_body(f_, env2),)
+                finally:
+                    self.depth -= 1
+        raise Unknown("static member %s of the policy type %s not found" % (fn_name, cls_name))
+
+    def inline_method(self, obj, name, args, call_text=""):
         """obj.name(args) where obj is an operand object: evaluate the class's own method body."""
         cands = []
         for cname, methods in self.classes.items():
@@ -417,6 +458,12 @@ class Evaluator:
         env = {"this": ("optref", obj)}
         for p, a in zip(ps, args):
             env[p["id"]] = a
+        # explicit template arguments (`update<detail::plus_update>(rhs)`) name the policy types the body calls through
+        par = self.d.parent_of(m) if hasattr(self.d, "parent_of") else None
+        tps = [c.get("name") for c in self.kids(par) if c.get("kind") == "TemplateTypeParmDecl"] if par is not None and par.get("kind") == "FunctionTemplateDecl" else []
+        mt = re.search(r"%s\s*<([^<>()]*)>" % re.escape(name), call_text or "")
+        if tps and mt:
+            env["__targs__"] = {tp: a_.strip().split("::")[-1] for tp, a_ in zip(tps, mt.group(1).split(","))}
         self.depth += 1
         try:
             return self.run_body(m, env)
